@@ -185,12 +185,13 @@ theorem declsIdents_emitObjs (c : Ctx) (pkg : String) : ∀ (objs : List (String
       declsIdents_emitObjs c pkg rest hok.2]
 
 theorem schemasOk_mem {ss0 : Schemas} : ∀ {ss : List Schema} {s : Schema}, schemasOk ss0 ss = true → s ∈ ss →
-    fmtPkg s.pkg = s.pkg ∧ objectsOk ss0 s.pkg s.objects = true
+    fmtPkg s.pkg = s.pkg ∧ objectsOk ss0 s.pkg s.objects = true ∧ externalPkgs.contains s.pkg = false ∧
+      (s.objects.map (·.1)).Nodup
   | [], _, _, h => by cases h
   | s0 :: rest, s, hok, h => by
-    simp only [schemasOk, schemaOk, Bool.and_eq_true, beq_iff_eq] at hok
+    simp only [schemasOk, schemaOk, Bool.and_eq_true, beq_iff_eq, nodupB_iff, Bool.not_eq_true'] at hok
     rcases List.mem_cons.mp h with rfl | hrest
-    · exact ⟨hok.1.1, hok.1.2⟩
+    · exact ⟨hok.1.1.1.1, hok.1.2, hok.1.1.1.2, hok.1.1.2⟩
     · exact schemasOk_mem hok.2 hrest
 
 theorem schemasNamesOk_mem {ss0 : Schemas} : ∀ {ss : List Schema} {s : Schema}, schemasNamesOk ss0 ss = true → s ∈ ss →
@@ -212,8 +213,18 @@ structure EnvFacts (cfg : Cfg) (ss : Schemas) : Prop where
 namespace EnvFacts
 variable {cfg : Cfg} {ss : Schemas}
 
+theorem sok (h : EnvFacts cfg ss) : schemasOk ss ss = true := by
+  have := h.printable
+  simp only [GoPrintable, Bool.and_eq_true] at this
+  exact this.2
+
+theorem pkgsNodup (h : EnvFacts cfg ss) : (ss.map (·.pkg)).Nodup := by
+  have := h.printable
+  simp only [GoPrintable, Bool.and_eq_true, nodupB_iff] at this
+  exact this.1
+
 theorem canon (h : EnvFacts cfg ss) : ∀ s ∈ ss, fmtPkg s.pkg = s.pkg :=
-  fun _ hs => (schemasOk_mem h.printable hs).1
+  fun _ hs => (schemasOk_mem h.sok hs).1
 
 /-- a located object: its schema, and everything `objectsOk` says about it -/
 theorem located (h : EnvFacts cfg ss) {p n : String} {o : Obj} (hl : ss.locateObject p n = some o) :
@@ -227,13 +238,13 @@ theorem located (h : EnvFacts cfg ss) {p n : String} {o : Obj} (hl : ss.locateOb
     simp only [hloc, Schema.locateObject] at hl
     have hm := locate_mem hloc
     have hmem := rget_mem hl
-    have hso := schemasOk_mem h.printable hm.1
-    have ho := objectsOk_mem hso.2 hmem
+    have hso := schemasOk_mem h.sok hm.1
+    have ho := objectsOk_mem hso.2.1 hmem
     have hn := schemasNamesOk_mem h.names hm.1
     refine ⟨s, hm.1, hm.2, hmem, ho.1, ho.2.1, ?_, ho.2.2.2, ?_, ?_⟩
     · rw [← hm.2]; exact ho.2.2.1
     · exact pkgDecls_emit cfg ss ss p s h.canon hloc
-    · have := declsIdents_emitObjs (ctxOf cfg ss) s.pkg s.objects (by simpa [ctxOf] using hso.2)
+    · have := declsIdents_emitObjs (ctxOf cfg ss) s.pkg s.objects (by simpa [ctxOf] using hso.2.1)
       rw [this]; exact hn.2
 
 end EnvFacts
